@@ -11,6 +11,9 @@ import GeomV.C06.Lemmas
 * `C06_guard_exact` first member empty ⇒ the encoder still succeeds and the decoder returns
                     InvalidGeometryError: the asymmetry behind the statement's guard.
 * `C06_encode_total` the encoder's result in closed form (exactly when it succeeds and with what).
+* `C06_decode_rfc`  the decoder returns `g` for EVERY exact RFC 7946 geometry object denoting `g` (either member
+                    order) with a non-empty first member — not only for the encoder's own output.
+* `C06_injective`   the encoding is injective.
 No bound on member counts. Numbers are abstract (`F` with a `fin` predicate); number *text* is the stdlib
 contract measured by the correspondence run.
 -/
@@ -138,6 +141,58 @@ theorem C06_guard_exact (g : Geom F) (hs : supported g = true) (hf : allFinite f
     (hne : firstMemberNonEmpty g = false) :
     ∃ t, toTree fin g = .ok t ∧ fromTree t = .error .invalid :=
   ⟨docOf g, by simp [toTree_eq, hs, hf], by simp [fromTree_docOf g hs, hne]⟩
+
+/-- what the RFC reader accepts is the encoder's document for that geometry, in one of the two member
+orders -/
+theorem read_inv (t : Tree F) (g : Geom F) (h : Rfc.read t = some g) :
+    supported g = true ∧ ∃ ty c, docOf g = .obj [("type", .str ty), ("coordinates", c)] ∧
+      (t = .obj [("type", .str ty), ("coordinates", c)] ∨ t = .obj [("coordinates", c), ("type", .str ty)]) := by
+  unfold Rfc.read at h
+  split at h
+  · rename_i kvs
+    split at h
+    · simp at h
+    · rename_i hl
+      split at h
+      · rename_i ty c ht hc
+        have hm0 := members_inv kvs (.str ty) c (by simpa using hl) ht hc
+        have hm : Tree.obj kvs = .obj [("type", .str ty), ("coordinates", c)] ∨
+            Tree.obj kvs = .obj [("coordinates", c), ("type", .str ty)] := by
+          rcases hm0 with e | e <;> simp [e]
+        repeat' split at h
+        all_goals simp at h
+        all_goals obtain ⟨v, hv, rfl⟩ := h
+        · exact ⟨rfl, ty, c, by simp [docOf, position_inv c v hv, *], hm⟩
+        · exact ⟨rfl, ty, c, by simp [docOf, positions_inv c v hv, *], hm⟩
+        · exact ⟨rfl, ty, c, by simp [docOf, positions_inv c v hv, *], hm⟩
+        · exact ⟨rfl, ty, c, by simp [docOf, positionss_inv c v hv, *], hm⟩
+        · exact ⟨rfl, ty, c, by simp [docOf, positionss_inv c v hv, *], hm⟩
+        · exact ⟨rfl, ty, c, by simp [docOf, positionsss_inv c v hv, *], hm⟩
+      · simp at h
+  · simp at h
+
+/-- **C06_decode_rfc** (decoder side, independent of the encoder): every JSON value that the RFC 7946
+reader accepts as a geometry object `g` (exactly the members `type`/`coordinates` in either order,
+required nesting, 2-element positions) and whose first member has a vertex is decoded to exactly `g`;
+if the first member is empty the decoder answers `InvalidGeometryError`. -/
+theorem C06_decode_rfc (t : Tree F) (g : Geom F) (h : Rfc.read t = some g) :
+    fromTree t = if firstMemberNonEmpty g then .ok g else .error .invalid := by
+  obtain ⟨hs, ty, c, hd, ht⟩ := read_inv t g h
+  have := fromTree_docOf g hs
+  rw [hd] at this
+  rcases ht with rfl | rfl
+  · exact this
+  · simp only [fromTree, unmarshal_doc, unmarshal_doc_swapped] at this ⊢
+    exact this
+
+/-- **C06_injective** (corollary of `C06_shape`): geometries with the same document are equal — the
+encoding loses nothing, including for first-empty geometries. -/
+theorem C06_injective (g₁ g₂ : Geom F) (t : Tree F) (h₁ : toTree fin g₁ = .ok t)
+    (h₂ : toTree fin g₂ = .ok t) : g₁ = g₂ := by
+  have a := C06_shape fin g₁ t h₁
+  have b := C06_shape fin g₂ t h₂
+  rw [a] at b
+  exact Option.some.inj b
 
 /-! ### Non-vacuity -/
 
